@@ -35,7 +35,7 @@ ASSUMPTIONS = [
     'parseable as a number',
 ]
 ANCHORS = ['Table.delimited_self', 'Table._extract_data_from_tsv', 'Table.from_tsv', '_convert', 'parse_biom_table']
-REQUIRED = ['hierarchical_category_round_trips', 'import_from_tsv_with_mappings', 'ids_with_line_boundary_characters', 'text_category_round_trips', 'last_sample_named_like_a_metadata_column', 'scale_exports', 'ids_with_blanks_at_their_edges', 'non_finite_value_in_last_column', 'export_legacy_function', 'export_other_column_name',
+REQUIRED = ['import_cli_with_sample_mapping_file', 'export_column_name_without_hash', 'hierarchical_category_round_trips', 'import_from_tsv_with_mappings', 'ids_with_line_boundary_characters', 'text_category_round_trips', 'last_sample_named_like_a_metadata_column', 'scale_exports', 'ids_with_blanks_at_their_edges', 'non_finite_value_in_last_column', 'export_legacy_function', 'export_other_column_name',
             'import_legacy_convert_table_to_biom', 'export_asked_for_absent_metadata', 'exported_again_after_change', 'export_to_tsv', 'export_str', 'export_direct_io',
             'export_cli', 'import_from_tsv_lines', 'import_from_tsv_handle',
             'import_load_table', 'import_load_table_gz',
@@ -163,7 +163,15 @@ def nested_md_case(ctx, index, r):
                                                           'tiny'])
     n = len(spec.obs_ids)
     toks = [x for x in _TAXA if ';' not in x and '|' not in x]
-    shape = r.choice(['lists-of-lists', 'flat-lists', 'mixed-depth'])
+    shape = r.choice(['lists-of-lists', 'flat-lists', 'mixed-depth',
+                      'flat-lists-split-on-semicolon'])
+    inverse = sc_pipe_separated
+    if shape == 'flat-lists-split-on-semicolon':
+        # flat lineages read back with the split-on-';' function: the '|'
+        # is an ordinary character of a level then
+        from biom.cli.table_converter import observation_metadata_types
+        inverse = observation_metadata_types['sc_separated']
+        toks = toks + ['a|b', '|x', 'p__c|d']
 
     def lineage():
         return [r.choice(toks) for _ in range(r.randint(1, 4))]
@@ -178,7 +186,7 @@ def nested_md_case(ctx, index, r):
         else:
             v = lineage()
             vals.append(v)
-            want.append([list(v)])
+            want.append([list(v)] if inverse is sc_pipe_separated else list(v))
     if shape == 'lists-of-lists' and all(len(v) == 1 for v in vals):
         vals[0] = vals[0] + [lineage()]
         want[0] = [list(x) for x in vals[0]]
@@ -218,7 +226,7 @@ def nested_md_case(ctx, index, r):
         lines = text.split('\n')
         if lines and lines[-1] == '':
             lines.pop()
-        t2 = biom.Table.from_tsv(lines, None, None, sc_pipe_separated)
+        t2 = biom.Table.from_tsv(lines, None, None, inverse)
         g = snap.snap(t2)
         d = snap.diff(g, snap.snap_spec(spec), fields=('obs_ids', 'samp_ids',
                                                        'D'))
@@ -342,9 +350,13 @@ def run_case(ctx, index):
     exporter = r.choice(['to_tsv', 'str', 'direct_io', 'to_tsv', 'to_tsv',
                          'str', 'direct_io', 'to_tsv', 'legacy-function'])
     colname = '#OTU ID'
+    if index % 8 == 3:
+        exporter = 'cli'
     if exporter in ('to_tsv', 'direct_io') and r.random() < .25:
         colname = r.choice(['#FeatureID', '#Feature ID', '#NAME', '#ID é',
-                            '#OTU ID'])
+                            '#OTU ID', 'OTU', 'Feature ID', 'featureid'])
+        if not colname.startswith('#'):
+            ctx.count('export_column_name_without_hash')
     if index % 8 == 3:
         exporter = 'cli'
     nonfinite = False
@@ -433,7 +445,8 @@ def run_case(ctx, index):
             ctx.count('export_cli')
         # ------------------------------------------------ exporter alone
         try:
-            o, s, D, mdn, mds = tsvspec.decode(text, with_md_export)
+            o, s, D, mdn, mds = tsvspec.decode(
+                text, with_md_export, not colname.startswith('#'))
         except Exception as e:
             raise Violation('C03/export-undecodable', '%s: %s; text=%r; '
                             'case=%r' % (type(e).__name__, e, text[:300],
@@ -515,11 +528,34 @@ def run_case(ctx, index):
                         '--table-type', 'OTU table']
                 if with_md_export:
                     args += ['--process-obs-metadata', 'taxonomy']
+                # sample metadata from a mapping file on the way (ids and
+                # values stay the text's)
+                mapped = index % 3 == 0 and all(
+                    i == i.strip() and '"' not in i and
+                    not any(c in i for c in '\x0b\x0c\x1c\x1d\x1e\x85'
+                            '\u2028\u2029')
+                    for i in spec.samp_ids)
+                if mapped:
+                    mp_ = ctx.path('c03map%d.txt' % index)
+                    files.append(mp_)
+                    with open(mp_, 'w', encoding='utf-8') as f:
+                        f.write('#SampleID\tNote\n' + ''.join(
+                            '%s\tnote %d\n' % (i, k_)
+                            for k_, i in enumerate(spec.samp_ids)))
+                    args += ['--sample-metadata-fp', mp_]
                 rr = _cli(args)
                 if rr.exit_code != 0:
                     raise RuntimeError('biom convert exit %s: %r %r' % (
                         rr.exit_code, rr.output[-300:], rr.exception))
-                return biom.load_table(outb)
+                t_ = biom.load_table(outb)
+                if mapped:
+                    got_s = [dict(e) for e in t_.metadata(axis='sample')]
+                    if got_s != [{'Note': 'note %d' % k_}
+                                 for k_ in range(len(spec.samp_ids))]:
+                        raise RuntimeError('sample metadata from the mapping '
+                                           'file came out as %r' % (got_s,))
+                    ctx.count('import_cli_with_sample_mapping_file')
+                return t_
             importers.append(('cli_' + fmt, 'list', via_cli))
         for nm, mdform, f in importers:
             try:
@@ -591,7 +627,8 @@ def run_case(ctx, index):
                 text2 = buf.getvalue()
             d2 = dict(desc, changed_in_place=change)
             try:
-                o, s_, D2, _, _ = tsvspec.decode(text2, with_md_export)
+                o, s_, D2, _, _ = tsvspec.decode(
+                    text2, with_md_export, not colname.startswith('#'))
             except Exception as e:
                 raise Violation('C03/export-undecodable', '%s: %s; text=%r; '
                                 'case=%r' % (type(e).__name__, e, text2[:300],
